@@ -24,6 +24,9 @@ func decodeOracle(w *World, i int, op Op, obs string) *Mismatch {
 	}
 	img := w.File.Bytes()
 	got := DecodeModel(img)
+	if got == "timeout" {
+		return nil
+	}
 	exp := "empty"
 	if len(w.Flushed) > 0 {
 		exp = w.Flushed[len(w.Flushed)-1].dump()
